@@ -90,7 +90,7 @@ func (s Sched) Head() string {
 const (
 	idleShort = 250 * time.Millisecond
 	tickWait  = 420 * time.Millisecond
-	ackTO     = 400 * time.Millisecond
+	ackTO     = 2500 * time.Millisecond
 )
 
 type sconn struct {
@@ -104,6 +104,7 @@ type sconn struct {
 	wids    map[int]string // subscriber -> wire id
 	wmu     sync.Mutex
 	acceptT time.Time
+	pongs   atomic.Int32
 }
 
 type subscriber struct {
@@ -320,6 +321,8 @@ func (w *World) serveWS(rw http.ResponseWriter, r *http.Request) {
 			w.obs = append(w.obs, common.L("ssub", common.I(c.n), common.I(n), common.I(i)))
 			w.mu.Unlock()
 			w.lastAct.Store(time.Now().UnixNano())
+		case "pong":
+			c.pongs.Add(1)
 		case "complete", "stop":
 			w.mu.Lock()
 			n := w.wid(m.ID)
@@ -507,8 +510,18 @@ func (w *World) startSub(i int, k Key, sse bool, pre bool) {
 
 // a Subscribe either returns, reaches the upstream with a new dial, or parks behind another
 // subscriber's dial (no observable): wait for one of the first two, at most 3 settle periods.
-func (w *World) waitSubProgress(i int, nconns int) {
-	deadline := time.Now().Add(3 * w.settle)
+func (w *World) waitSubProgress(i int, nconns int, k Key) {
+	// behind a pending dial for the same endpoint/subprotocol/headers the Subscribe may legitimately
+	// park; otherwise it must make progress, so wait for it generously
+	wait := time.Second
+	w.mu.Lock()
+	for _, c := range w.conns {
+		if c.phase <= 1 && c.key.E == k.E && c.key.P == k.P && c.key.H == k.H {
+			wait = 3 * w.settle
+		}
+	}
+	w.mu.Unlock()
+	deadline := time.Now().Add(wait)
 	for time.Now().Before(deadline) {
 		w.mu.Lock()
 		sb := w.subs[i]
@@ -615,6 +628,21 @@ func (w *World) send(c *sconn, id string, kind string, tag int) bool {
 	defer cancel()
 	if err := wsjson.Write(ctx, c.ws, m); err != nil {
 		w.logf(common.L("upfail", common.I(c.n)))
+	} else if !c.legacy {
+		// barrier: the client's single read loop answers a ping only after it has dispatched the
+		// frame before it (the handler runs synchronously in dispatch)
+		before := c.pongs.Load()
+		if wsjson.Write(ctx, c.ws, map[string]string{"type": "ping"}) == nil {
+			for t := 0; t < 5000 && c.pongs.Load() == before; t++ {
+				w.mu.Lock()
+				dead := c.phase == 3
+				w.mu.Unlock()
+				if dead {
+					break
+				}
+				time.Sleep(200 * time.Microsecond)
+			}
+		}
 	}
 	w.lastAct.Store(time.Now().UnixNano())
 	return true
@@ -659,7 +687,7 @@ func (w *World) apply(s *Sched, e Ev) {
 		nc := len(w.conns)
 		w.mu.Unlock()
 		w.startSub(e.A, s.Keys[e.A], false, false)
-		w.waitSubProgress(e.A, nc)
+		w.waitSubProgress(e.A, nc, s.Keys[e.A])
 	case "presub": // Subscribe with an already cancelled ctx
 		w.startSub(e.A, s.Keys[e.A], false, true)
 	case "cancel":
@@ -784,6 +812,15 @@ func (w *World) apply(s *Sched, e Ev) {
 	// ---- SSE ----
 	case "ssub":
 		w.startSub(e.A, Key{}, true, false)
+		for t := 0; t < 5000; t++ { // the request must reach the upstream
+			w.mu.Lock()
+			n := len(w.obs)
+			w.mu.Unlock()
+			if n > 0 {
+				break
+			}
+			time.Sleep(200 * time.Microsecond)
+		}
 	case "sok", "sfail", "sdrop", "snext", "scomplete", "serror":
 		w.mu.Lock()
 		sb := w.subs[e.A]
@@ -1096,7 +1133,7 @@ func genAll(seed uint64, thorough bool) []*Sched {
 	// --- ack timeout (slow): a handful
 	for _, pg := range progs[:2] {
 		merges([][]Ev{pg[0], pg[1], {{Op: "accept", A: 0}, {Op: "initfail", A: 0, B: 0}}}, func(m []Ev) {
-			if thorough || r.Pick(6) == 0 {
+			if thorough || r.Pick(12) == 0 {
 				add(0, map[int]Key{0: k0, 1: k0}, append(m, tail(0, []int{0, 1})...))
 			}
 		})
